@@ -477,6 +477,32 @@ class SymStr:
     def __contains__(self, sub):
         return self.find(sub) >= 0
 
+    def _cmp_gt(self, o, strict=True):
+        """lexicographic order on code points, as Python compares str"""
+        if not isinstance(o, (SymStr, builtins.str)):
+            raise TypeError("'>' not supported between str and %s" % type(o).__name__)
+        a, b = self.c, _selems(o)
+        alts = []
+        eq_prefix = []
+        for i in range(min(len(a), len(b))):
+            alts.append(z3.And(eq_prefix + [zcp(a[i]) > zcp(b[i])]))
+            eq_prefix = eq_prefix + [zcp(a[i]) == zcp(b[i])]
+        if len(a) > len(b) or (len(a) == len(b) and not strict):
+            alts.append(z3.And(eq_prefix) if eq_prefix else z3.BoolVal(True))
+        return SymBool(z3.simplify(z3.Or(alts))) if alts else False
+
+    def __gt__(self, o):
+        return self._cmp_gt(o, True)
+
+    def __ge__(self, o):
+        return self._cmp_gt(o, False)
+
+    def __lt__(self, o):
+        return sym_not(self._cmp_gt(o, False))
+
+    def __le__(self, o):
+        return sym_not(self._cmp_gt(o, True))
+
     def startswith(self, p, start=0):
         if isinstance(p, tuple):
             return bool(sym_or(*[self.startswith(x, start) for x in p]))
